@@ -329,6 +329,8 @@ class List(list, base.Symbolic, pg_typing.CustomTyping):
         value_spec=self._value_spec,
         allow_partial=self._allow_partial,
         accessor_writable=self._accessor_writable,
+        sealed=self._sealed,
+        onchange_callback=self._onchange_callback,
         # NOTE(daiyip): parent and root_path are reset to empty
         # for copy object.
         root_path=None)
